@@ -1163,14 +1163,41 @@ package stats
 //@   assigns nothing
 
 // Kernels behind the kdeKernel interface: fresh result of the same length.
+// Each kernel evaluates ONE function of (kernel, x) pointwise: kpdf / kcdf are
+// opaque names for it (for the three kernels of the package this is proved on
+// their own pdfEach/cdfEach: epan_pdf, the normal density, the delta kernel).
+//@ spec kpdf(k kdeKernel, x float64) float64
+//@ spec kcdf(k kdeKernel, x float64) float64
 //@ assume func kdeKernel.pdfEach
 //@   results ys
-//@   ensures len(ys) == len(xs) && fresh(ys)
+//@   ensures len(ys) == len(xs) && fresh(ys) && (forall i in 0..len(xs) :: ys[i] == kpdf(self, xs[i]))
 //@   assigns nothing
 //@ assume func kdeKernel.cdfEach
 //@   results ys
-//@   ensures len(ys) == len(xs) && fresh(ys)
+//@   ensures len(ys) == len(xs) && fresh(ys) && (forall i in 0..len(xs) :: ys[i] == kcdf(self, xs[i]))
 //@   assigns nothing
+
+// the kernel average: sum of (weighted) kernel values at x - x_i
+//@ spec ksumP(k kdeKernel, xs []float64, x float64, n int) float64 = n <= 0 ? 0 : ksumP(k, xs, x, n-1) + kpdf(k, x - xs[n-1])
+//@ spec kwsumP(k kdeKernel, xs []float64, ws []float64, x float64, n int) float64 = n <= 0 ? 0 : kwsumP(k, xs, ws, x, n-1) + kpdf(k, x - xs[n-1]) * ws[n-1]
+//@ spec ksumC(k kdeKernel, xs []float64, x float64, n int) float64 = n <= 0 ? 0 : ksumC(k, xs, x, n-1) + kcdf(k, x - xs[n-1])
+//@ spec kwsumC(k kdeKernel, xs []float64, ws []float64, x float64, n int) float64 = n <= 0 ? 0 : kwsumC(k, xs, ws, x, n-1) + kcdf(k, x - xs[n-1]) * ws[n-1]
+//@ lemma ksumP_pointwise(ys []float64, k kdeKernel, xs []float64, x float64, n int) induction n same
+//@   model real
+//@   requires 0 <= n && n <= len(ys) && n <= len(xs) && (forall i in 0..len(ys) :: i < len(xs) ==> ys[i] == kpdf(k, x - xs[i]))
+//@   ensures fsum(ys, n) == ksumP(k, xs, x, n)
+//@ lemma kwsumP_pointwise(ys []float64, k kdeKernel, xs []float64, ws []float64, x float64, n int) induction n same
+//@   model real
+//@   requires 0 <= n && n <= len(ys) && n <= len(xs) && n <= len(ws) && (forall i in 0..len(ys) :: i < len(xs) ==> ys[i] == kpdf(k, x - xs[i]))
+//@   ensures wxsum(ys, ws, n) == kwsumP(k, xs, ws, x, n)
+//@ lemma ksumC_pointwise(ys []float64, k kdeKernel, xs []float64, x float64, n int) induction n same
+//@   model real
+//@   requires 0 <= n && n <= len(ys) && n <= len(xs) && (forall i in 0..len(ys) :: i < len(xs) ==> ys[i] == kcdf(k, x - xs[i]))
+//@   ensures fsum(ys, n) == ksumC(k, xs, x, n)
+//@ lemma kwsumC_pointwise(ys []float64, k kdeKernel, xs []float64, ws []float64, x float64, n int) induction n same
+//@   model real
+//@   requires 0 <= n && n <= len(ys) && n <= len(xs) && n <= len(ws) && (forall i in 0..len(ys) :: i < len(xs) ==> ys[i] == kcdf(k, x - xs[i]))
+//@   ensures wxsum(ys, ws, n) == kwsumC(k, xs, ws, x, n)
 
 // Bandwidth rules (C12): data is any value with StdDev / Weight / Quantile.
 //@ assume pure ?.StdDev
@@ -1209,11 +1236,19 @@ package stats
 //@   deterministic
 //@   model real
 //@   requires kde != nil && wfKDE(*kde)
+//@   check @ret1 [sum-unweighted] isnil(kde.Sample.Weights) ==> fsum(ys, len(ys)) == ksumP(kernel, kde.Sample.Xs, x, len(ys)) by ksumP_pointwise(ys, kernel, kde.Sample.Xs, x, len(ys))
+//@   check @ret1 [sum-weighted]   !isnil(kde.Sample.Weights) ==> wxsum(ys, kde.Sample.Weights, len(ys)) == kwsumP(kernel, kde.Sample.Xs, kde.Sample.Weights, x, len(ys)) by kwsumP_pointwise(ys, kernel, kde.Sample.Xs, kde.Sample.Weights, x, len(ys))
+//@   ensures [average-unweighted] isnil(kde.Sample.Weights) ==> result == ksumP(kernel, kde.Sample.Xs, x, len(kde.Sample.Xs)) / len(kde.Sample.Xs)
+//@   ensures [average-weighted]   !isnil(kde.Sample.Weights) ==> result == kwsumP(kernel, kde.Sample.Xs, kde.Sample.Weights, x, len(kde.Sample.Xs)) / fsum(kde.Sample.Weights, len(kde.Sample.Xs))
 //@   assigns nothing
 //@ func KDE.CDF#lit1
 //@   deterministic
 //@   model real
 //@   requires kde != nil && wfKDE(*kde)
+//@   check @ret1 [sum-unweighted] isnil(kde.Sample.Weights) ==> fsum(ys, len(ys)) == ksumC(kernel, kde.Sample.Xs, x, len(ys)) by ksumC_pointwise(ys, kernel, kde.Sample.Xs, x, len(ys))
+//@   check @ret1 [sum-weighted]   !isnil(kde.Sample.Weights) ==> wxsum(ys, kde.Sample.Weights, len(ys)) == kwsumC(kernel, kde.Sample.Xs, kde.Sample.Weights, x, len(ys)) by kwsumC_pointwise(ys, kernel, kde.Sample.Xs, kde.Sample.Weights, x, len(ys))
+//@   ensures [average-unweighted] isnil(kde.Sample.Weights) ==> result == ksumC(kernel, kde.Sample.Xs, x, len(kde.Sample.Xs)) / len(kde.Sample.Xs)
+//@   ensures [average-weighted]   !isnil(kde.Sample.Weights) ==> result == kwsumC(kernel, kde.Sample.Xs, kde.Sample.Weights, x, len(kde.Sample.Xs)) / fsum(kde.Sample.Weights, len(kde.Sample.Xs))
 //@   assigns nothing
 
 //@ func KDE.PDF
